@@ -188,6 +188,40 @@ fn boxed_zero_numeral(c: &mut Ctx) {
     }
 }
 
+/// `inv_mod2k` / `inv_mod2k_vartime` report failure through an option (`ConstCtOption`, or a
+/// `(value, Choice)` pair for BoxedUint): a bit count above the width must not panic. (The
+/// constant-time form returns none for an even value / some for an odd one; the vartime form is
+/// the one at risk. k is kept <= 2*BITS+1: the vartime loop runs k times.)
+fn inv_mod2k_large_k<const L: usize>(c: &mut Ctx) {
+    let bits = 64 * L as u32;
+    for a in c.edges(L, 24) {
+        for k in [bits + 1, bits + 2, bits + 63, bits + 64, bits + 65, 2 * bits, 2 * bits + 1] {
+            if c.done() {
+                return;
+            }
+            let x = bu::<L>(&a);
+            no_panic!(c, call(|| copt(x.inv_mod2k(k)).is_some()); a, k);
+            no_panic!(c, call(|| copt(x.inv_mod2k_vartime(k)).is_some()); a, k);
+        }
+    }
+}
+
+fn boxed_inv_mod2k_large_k(c: &mut Ctx) {
+    for l in 1..=3usize {
+        let bits = 64 * l as u32;
+        for a in c.edges(l, 12) {
+            for k in [bits + 1, bits + 63, bits + 64, bits + 65, 2 * bits + 1] {
+                if c.done() {
+                    return;
+                }
+                let x = bx(&a, l);
+                no_panic!(c, call(|| cb(x.inv_mod2k(k).1)); a, l, k);
+                no_panic!(c, call(|| cb(x.inv_mod2k_vartime(k).1)); a, l, k);
+            }
+        }
+    }
+}
+
 pub fn cases() -> Vec<Case> {
     let mut v = Vec::new();
     ucases!(v, "option/saturating/wrapping forms with arbitrary arguments", hostile_uint; 1, 2, 3, 4, 16);
@@ -195,6 +229,8 @@ pub fn cases() -> Vec<Case> {
     case!(v, "decoders (DER, RLP, slices, hex, radix) with garbage", hostile_decoders);
     case!(v, "BoxedUint::from_str_radix_vartime(\"0\") yields a usable value", boxed_zero_numeral);
     case!(v, "BoxedUint::from_be_hex with a string of the wrong length", boxed_hex_wrong_length);
+    ucases!(v, "inv_mod2k/inv_mod2k_vartime with k > BITS", inv_mod2k_large_k; 1, 2, 4);
+    case!(v, "BoxedUint::inv_mod2k/inv_mod2k_vartime with k > precision", boxed_inv_mod2k_large_k);
     // every case of every other property, panic-only
     for p in super::PROPS {
         if p == "C11" {
